@@ -157,7 +157,22 @@ func checkA(cs caseA) (string, string) {
 			return
 		}
 		// CanIRead must be false for every strict prefix of the field bytes
+		// (every cut up to 4 KiB of field bytes; beyond that - long strings - the cuts within
+		// 8 bytes of a field boundary and every 509th in between: the loop is quadratic)
+		near := map[int]bool{}
+		if len(enc) > 4096 {
+			var q demon.Pkg
+			for _, f := range cs.Fields {
+				q.B = append(q.B, encodeFields([]field{f})...)
+				for d := -8; d <= 8; d++ {
+					near[len(q.B)+d] = true
+				}
+			}
+		}
 		for cut := 0; cut < len(enc); cut++ {
+			if len(enc) > 4096 && cut > 16 && !near[cut] && cut%509 != 0 {
+				continue
+			}
 			q := parser.NewParser(append([]byte{}, enc[:cut]...))
 			if q.CanIRead(rt) {
 				sig, what = "canread:true-on-truncated", fmt.Sprintf("CanIRead true for %d of %d field bytes", cut, len(enc))
@@ -245,6 +260,34 @@ func randText(r *rand.Rand) string {
 	return s
 }
 
+// longText: a string of about 2^k UTF-16 units (k = 8..16, a few units either side) made of
+// ASCII with an astral character straddling every 256-unit boundary (high surrogate at unit
+// 255, 511, ...) and a few more at random places: a decoder that works in blocks, or with a
+// fixed-size buffer, meets a surrogate pair across its block end whatever its block size.
+func longText(r *rand.Rand) string {
+	units := (1 << (8 + r.Intn(9))) + r.Intn(5) - 2
+	rs := make([]rune, 0, units)
+	n := 0 // units so far
+	off := r.Intn(2) // 0: pairs straddle the boundaries, 1: they end exactly at them
+	for n < units {
+		switch {
+		case (n+1+off)%256 == 0 && n+2 <= units:
+			rs = append(rs, rune(0x10000+r.Intn(0xfffff)))
+			n += 2
+		case r.Intn(97) == 0 && n+2 <= units:
+			rs = append(rs, rune(0x1f600+r.Intn(64)))
+			n += 2
+		case r.Intn(31) == 0:
+			rs = append(rs, rune(0x800+r.Intn(0xd000-0x800)))
+			n++
+		default:
+			rs = append(rs, rune('a'+n%26))
+			n++
+		}
+	}
+	return string(rs)
+}
+
 func randField(r *rand.Rand, kinds []string) field {
 	t := kinds[r.Intn(len(kinds))]
 	f := field{T: t}
@@ -273,6 +316,9 @@ func randField(r *rand.Rand, kinds []string) field {
 		f.B = hex.EncodeToString(b)
 	case "w", "s":
 		f.B = randText(r)
+		if r.Intn(40) == 0 {
+			f.B = longText(r)
+		}
 		if t == "s" {
 			// C strings: no NUL at all (the domain excludes leading/interior NUL)
 			f.B = string(bytes.ReplaceAll([]byte(f.B), []byte{0}, []byte{'0'}))
@@ -291,9 +337,14 @@ func parserA(c *lib.Ctx) {
 		if len(cs.Fields) > 0 {
 			c.DistinctBytes(b)
 		}
-		c.SampleSome(20000, func() any { return cs })
+		if len(b) < 2000 {
+			c.SampleSome(20000, func() any { return cs })
+		}
 		for _, f := range cs.Fields {
 			c.Observe("A.field."+f.T, 1)
+			if (f.T == "w" || f.T == "s") && len(f.B) > 200 {
+				c.Observe("A.field.text>=256-units-with-pairs-at-block-ends", 1)
+			}
 		}
 		if sig, what := checkA(cs); sig != "" {
 			c.Violation(sig, what, cs)
